@@ -96,7 +96,8 @@ Definition pstep (c : cfg) (ps : pstate) (e : devent) (hs : handshake) : option 
       else None
   | Slow t no total _ =>
       match ps_phase ps t with
-      | PRunning k => if (no =? k) && (total =? c_total c t) then Some ps else None
+      | PRunning k =>
+          if (no =? k) && (total =? c_total c t) then Some (set_phase ps t (PRunning k)) else None
       | _ => None
       end
   | AttemptFailedWillRetry t a =>
@@ -257,3 +258,104 @@ Definition is_failed_retry_of (t : tid) (k : N) (e : revent) : bool :=
   match e with ETestAttemptFailedWillRetry t' a => (t' =? t) && (a_no a =? k) | _ => false end.
 
 Definition count_if (f : revent -> bool) (l : list revent) : nat := length (filter f l).
+
+(* ---- the protocol as a product of independent automata (for the interleaving theorem) ----
+   [ustep]: what one test's unit may send next, looking only at that test's own phase;
+   [gstep]: the setup-script sequence and the gate "no test is started or skipped before the
+   scripts are done"; signals / input / report events are unconstrained. *)
+
+Definition event_test (e : devent) : option tid :=
+  match e with
+  | Started t | Slow t _ _ _ | AttemptFailedWillRetry t _ | RetryStarted t _ _ | Finished t _
+  | Skipped t => Some t
+  | _ => None
+  end.
+
+Definition ustep (c : cfg) (t : tid) (p : phase) (e : devent) (hs : handshake) : option phase :=
+  match e with
+  | Started _ =>
+      if memb t (c_sel c) then
+        match p, hs with
+        | PIdle, HAccepted => Some (PRunning 1)
+        | PIdle, HRefused => Some PRefusedStart
+        | _, _ => None
+        end
+      else None
+  | Skipped _ =>
+      if memb t (c_unsel c) then match p with PIdle => Some PSkipped | _ => None end else None
+  | Slow _ no total _ =>
+      match p with
+      | PRunning k => if (no =? k) && (total =? c_total c t) then Some p else None
+      | _ => None
+      end
+  | AttemptFailedWillRetry _ a =>
+      match p with
+      | PRunning k =>
+          if (a_no a =? k) && (a_total a =? c_total c t) && (k <? c_total c t)
+             && negb (is_success (a_res a))
+          then Some (PDelay k) else None
+      | _ => None
+      end
+  | RetryStarted _ no total =>
+      match p with
+      | PDelay k =>
+          if (no =? k + 1) && (total =? c_total c t) then
+            match hs with
+            | HAccepted => Some (PRunning (k + 1))
+            | HRefused => Some (PRefusedRetry k)
+            | HNone => None
+            end
+          else None
+      | _ => None
+      end
+  | Finished _ a =>
+      match p with
+      | PRunning k =>
+          if (a_no a =? k) && (a_total a =? c_total c t)
+             && (is_success (a_res a) || (c_total c t <=? k))
+          then Some PFinished else None
+      | _ => None
+      end
+  | _ => Some p
+  end.
+
+(* one unit's trace: the events of test t in an annotated history *)
+Fixpoint urun (c : cfg) (t : tid) (p : phase) (h : list (devent * handshake)) : bool :=
+  match h with
+  | [] => true
+  | (e, hs) :: r =>
+      match event_test e with
+      | Some t' =>
+          if t' =? t then
+            match ustep c t p e hs with Some p' => urun c t p' r | None => false end
+          else urun c t p r
+      | None => urun c t p r
+      end
+  end.
+
+Definition gstep (c : cfg) (g : sid * bool) (e : devent) (hs : handshake) : option (sid * bool) :=
+  let '(next, srun) := g in
+  match e with
+  | ScriptStarted s =>
+      if (s =? next) && (s <? c_scripts c) && negb srun then
+        match hs with
+        | HAccepted => Some (next, true)
+        | HRefused => Some (next + 1, false)
+        | HNone => None
+        end
+      else None
+  | ScriptSlow s _ => if (s =? next) && srun then Some g else None
+  | ScriptFinished s _ => if (s =? next) && srun then Some (next + 1, false) else None
+  | Started _ | Skipped _ => if (next =? c_scripts c) && negb srun then Some g else None
+  | _ => Some g
+  end.
+
+Fixpoint grun (c : cfg) (g : sid * bool) (h : list (devent * handshake)) : bool :=
+  match h with
+  | [] => true
+  | (e, hs) :: r => match gstep c g e hs with Some g' => grun c g' r | None => false end
+  end.
+
+(* the events of one test *)
+Definition of_test (t : tid) (x : devent * handshake) : bool :=
+  match event_test (fst x) with Some t' => t' =? t | None => false end.
